@@ -262,7 +262,9 @@ pub fn run_check(prop: &str, tier: &str) -> i32 {
         }
         "C09" => {
             report.level = "fault_enumeration";
-            c09::check(tier, budget, &mut report);
+            c09::check(tier, budget * 0.7, &mut report);
+            // the io_uring batch path: deviations on the submission / completion seam
+            c09::check_uring(budget * 0.3, false, &mut report);
             // a shard backlog longer than one journal-sized batch behind a failing batch
             if report.violations.is_empty() {
                 c19::failed_backlog_for_c09(&mut report);
